@@ -395,9 +395,6 @@ pub fn ref_v9(b: &[u8], cache: &mut RefCache, q: &mut Q) -> Result<(CVar, usize)
                 }
                 Some(RefTpl::V9Opt(s, op)) => {
                     let (mut flat, mut n, mut pad) = v9_opt_records(s, op, body)?;
-                    if n == 0 {
-                        return nc("options data flowset without a record");
-                    }
                     if q.on && n > 1 {
                         // recorded defect: the structure holds one record; the others are left in the padding
                         q.fire("v9/options-data/records>1");
@@ -533,7 +530,9 @@ fn ipfix_records(fields: &[FieldSpec], body: &[u8], q: &mut Q) -> Result<Option<
         }
     }
     if n == 0 {
-        return nc("data set without a record");
+        // nothing but (at most) padding: the set cannot be decoded; it defines no record and, like any data set,
+        // changes no cache
+        return Ok(None);
     }
     Ok(Some((flat, n, body[o..].to_vec())))
 }
